@@ -377,7 +377,6 @@ fn compute_preliminary(tree: &mut impl LayoutFlexboxContainer, node: NodeId, inp
     for order in 0..len {
         let child = tree.get_child_id(node, order);
         if tree.get_flexbox_child_style(child).box_generation_mode() == BoxGenerationMode::None {
-            tree.set_unrounded_layout(child, &Layout::with_order(order as u32));
             tree.perform_child_layout(
                 child,
                 Size::NONE,
@@ -386,6 +385,9 @@ fn compute_preliminary(tree: &mut impl LayoutFlexboxContainer, node: NodeId, inp
                 SizingMode::InherentSize,
                 Line::FALSE,
             );
+            // Set the layout *after* the call: a cache miss inside it zeroes the layout (order 0) but a cache hit
+            // does not, so setting it first made `order` depend on the state of the cache
+            tree.set_unrounded_layout(child, &Layout::with_order(order as u32));
         }
     }
 
